@@ -189,22 +189,57 @@ def _merge_remap(rule, fn):
 def r2_merge_offsets(rule, root=None):
     fn = A.find_fn(OCT, "build_inner_mt", self_ty="Octree", root=root)
     t = txt(fn["body"])
+    # each fact: alternatives, each a list of fragments that must all be present (`$X` stands for any local)
     need = [
-        ("cell offsets are prefix sums starting after the root's own cells", "letmutcell_offsets=vec!(root.cells.len());"),
-        ("vertex offsets are prefix sums starting at 0", "letmutvert_offsets=vec!(0);"),
-        ("each task adds its own cell count", "letc=(cell_offsets.last().unwrap()+o.octree.cells.len());cell_offsets.push(c);"),
-        ("each task adds its own vertex count", "letv=(vert_offsets.last().unwrap()+o.octree.verts.len());vert_offsets.push(v);"),
-        ("offsets are tied to the arrays as they grow", "assert_eq!(cell_offsets[i],root.cells.len());assert_eq!(vert_offsets[i],root.verts.len());"),
-        ("hermite data returns to the slot of the task's cell", "let(i,j)=o.cell.index.unwrap();hermites[i][(jasusize)]=o.hermite;"),
-        ("merging walks back up in reverse creation order", "for(cell,index)infixup.into_iter().rev()"),
+        ("cell offsets are prefix sums starting after the root's own cells", [
+            ["letmutcell_offsets=vec!(root.cells.len());"],
+            ["letmut$CT=root.cells.len();", "letmutcell_offsets=vec!($CT);"],
+        ]),
+        ("vertex offsets are prefix sums starting at 0", [
+            ["letmutvert_offsets=vec!(0);"],
+            ["letmut$VT=0;", "letmutvert_offsets=vec!($VT);"],
+        ]),
+        ("each task adds its own cell count", [
+            ["letc=(cell_offsets.last().unwrap()+o.octree.cells.len());cell_offsets.push(c);"],
+            ["let$C=(cell_offsets.last().unwrap()+o.octree.cells.len());cell_offsets.push($C);"],
+            ["($CT+=o.octree.cells.len());cell_offsets.push($CT);", "letmutcell_offsets=vec!($CT);"],
+        ]),
+        ("each task adds its own vertex count", [
+            ["letv=(vert_offsets.last().unwrap()+o.octree.verts.len());vert_offsets.push(v);"],
+            ["let$V=(vert_offsets.last().unwrap()+o.octree.verts.len());vert_offsets.push($V);"],
+            ["($VT+=o.octree.verts.len());vert_offsets.push($VT);", "letmutvert_offsets=vec!($VT);"],
+        ]),
+        ("offsets are tied to the arrays as they grow", [
+            ["assert_eq!(cell_offsets[i],root.cells.len());assert_eq!(vert_offsets[i],root.verts.len());"],
+            ["let$CO=cell_offsets[i];", "let$VO=vert_offsets[i];", "assert_eq!($CO,root.cells.len());assert_eq!($VO,root.verts.len());"],
+        ]),
+        ("hermite data returns to the slot of the task's cell", [["let(i,j)=o.cell.index.unwrap();hermites[i][(jasusize)]=o.hermite;"]]),
+        ("merging walks back up in reverse creation order", [["for(cell,index)infixup.into_iter().rev()"]]),
     ]
     _merge_remap(rule, fn)
-    for what, frag in need:
-        f2 = frag.replace("Cell::Full | Cell::Empty", "Cell::Full|Cell::Empty")
-        if frag in t or f2 in t:
+    for what, alts in need:
+        hit = False
+        for frags in alts:
+            bind = {}
+            ok_ = True
+            for fr in frags:
+                if "$" not in fr:
+                    if fr not in t:
+                        ok_ = False
+                        break
+                    continue
+                m_ = t.fmatch(fr, bind=bind or None)
+                if m_ is None:
+                    ok_ = False
+                    break
+                bind = m_
+            if ok_:
+                hit = True
+                break
+        if hit:
             rule.ok("mt merge: %s" % what, file=OCT, line=fn["ln"])
         else:
-            rule.bad("merge|%s" % what[:28], "multithreaded merge: %s (`%s` not found)" % (what, frag[:60]), A.where(fn))
+            rule.bad("merge|%s" % what[:28], "multithreaded merge: %s (`%s` not found)" % (what, alts[0][0][:60]), A.where(fn))
 
 
 
